@@ -1120,6 +1120,55 @@ impl Drop for VersionRef<'_> {
     }
 }
 
+/////////////////////////////////////////// VersionCursor //////////////////////////////////////////
+
+/// A cursor that keeps the version it reads from referenced.  The per-file cursors of a scan open
+/// their files lazily; without the reference a compaction could retire a file before the scan
+/// gets to it.
+pub(crate) struct VersionCursor<'a, C: Cursor> {
+    cursor: C,
+    _version: VersionRef<'a>,
+}
+
+impl<'a, C: Cursor> VersionCursor<'a, C> {
+    pub(crate) fn new(version: VersionRef<'a>, cursor: C) -> Self {
+        Self {
+            cursor,
+            _version: version,
+        }
+    }
+}
+
+impl<C: Cursor> Cursor for VersionCursor<'_, C> {
+    fn seek_to_first(&mut self) -> Result<(), SError> {
+        self.cursor.seek_to_first()
+    }
+
+    fn seek_to_last(&mut self) -> Result<(), SError> {
+        self.cursor.seek_to_last()
+    }
+
+    fn seek(&mut self, key: &[u8]) -> Result<(), SError> {
+        self.cursor.seek(key)
+    }
+
+    fn prev(&mut self) -> Result<(), SError> {
+        self.cursor.prev()
+    }
+
+    fn next(&mut self) -> Result<(), SError> {
+        self.cursor.next()
+    }
+
+    fn key(&self) -> Option<KeyRef<'_>> {
+        self.cursor.key()
+    }
+
+    fn value(&self) -> Option<&'_ [u8]> {
+        self.cursor.value()
+    }
+}
+
 ////////////////////////////////////////////// LsmTree /////////////////////////////////////////////
 
 pub struct LsmTree {
@@ -1671,7 +1720,7 @@ impl LsmTree {
         let version_scan = version.range_scan(start_bound, end_bound, u64::MAX)?;
         let cursor = PruningCursor::new(version_scan, u64::MAX)?;
         let cursor = BoundsCursor::new(cursor, start_bound, end_bound)?;
-        Ok(cursor)
+        Ok(VersionCursor::new(version, cursor))
     }
 }
 
